@@ -34,7 +34,8 @@
       nested arrays have no length.
   What the format cannot carry is folded by `canon*` and stated by C07_canon_*: `complete_ctype` vs
   `ctype`, `not_nullable`, `direction = None` vs `'in'`, `caller_allocates` of in-parameters, `skip` of a
-  node (one `introspectable` attribute), falsy (empty) optional strings, column 0.
+  node (one `introspectable` attribute), falsy (empty) optional strings, column 0, and an unset `transfer`
+  of a SKIPPED return value (written as the mandatory `transfer-ownership="none"`: C07_canon_return).
   `int()` is modelled on ASCII decimal literals; file names are taken relative to the source roots.
 -/
 import GIVerif.Lemmas.GirCodec
@@ -223,6 +224,18 @@ theorem C07_canon_param (p : Param) :
   refine ⟨rfl, rfl, rfl, rfl, rfl, rfl, rfl, rfl, ?_⟩
   intro h
   simp [canonParam, h]
+
+/-- a return value keeps its type, skip flag and a truthy transfer; an unset transfer stays unset unless
+    the return value is skipped, in which case it reads back as `none` (`ast.PARAM_TRANSFER_NONE`) -/
+theorem C07_canon_return (r : Return) :
+    (canonReturn r).skip = r.skip ∧ (canonReturn r).nullable = (r.nullable && !r.notNullable) ∧
+    (truthy r.transfer = true → (canonReturn r).transfer = r.transfer) ∧
+    (truthy r.transfer = false → r.skip = false → (canonReturn r).transfer = none) ∧
+    (truthy r.transfer = false → r.skip = true → (canonReturn r).transfer = some "none".toList) := by
+  refine ⟨rfl, rfl, ?_, ?_, ?_⟩
+  · intro h; simp only [canonReturn, returnTransfer, h, ↓reduceIte]
+  · intro h hs; simp [canonReturn, returnTransfer, h, hs, optIf]
+  · intro h hs; simp [canonReturn, returnTransfer, h, hs, optIf, sTransferNone]
 
 theorem C07_canon_param_same_output (ns : Str) (names : List (Option Str)) (nodename : String) (p : Param) :
     writeParam ns names nodename (canonParam p) = writeParam ns names nodename p :=
